@@ -120,6 +120,11 @@ def run(R):
     # a task handed to another thread's scheduler is resumed while it is running there: the deduplication scope is per thread
     from .c12 import dedup_key_rule
     dedup_key_rule(R, "C03.DEDUP-KEY")
+    # printing a task (str/repr/dump, debug options, tracebacks) never starts it: "a task that was created but never yielded or
+    # waited on never starts"
+    from .c18 import diag_closure, diag_purity
+    _roots, allm_ = diag_closure(R)
+    diag_purity(R, ro, allm_, "C03.DIAG-PURE")
     # ---- ORDER-PARITY
     hm = ro.handle_task_method()
     hp = q.param_names(hm.node)[1]
